@@ -10,8 +10,10 @@ import (
 	"fmt"
 	"os"
 	"path/filepath"
+	"runtime"
 	"strconv"
 	"strings"
+	"time"
 
 	fileseq "github.com/justinfx/gofileseq/v2"
 	"github.com/justinfx/gofileseq/v2/ranges"
@@ -163,6 +165,8 @@ func probeFS(fs *fileseq.FrameSet) string {
 	return b.String()
 }
 
+const pathCap = 2000
+
 func showSeqCore(q *fileseq.FileSequence) string {
 	return fmt.Sprintf(" dir=%s base=%s ext=%s pad=%s zfill=%d hasfs=%s frange=%s style=%d string=%s len=%d start=%d end=%d",
 		hexs(q.Dirname()), hexs(q.Basename()), hexs(q.Ext()), hexs(q.Padding()), q.ZFill(),
@@ -172,7 +176,11 @@ func showSeqCore(q *fileseq.FileSequence) string {
 
 func showSeqPaths(q *fileseq.FileSequence) string {
 	var ps []string
-	for i := -1; i < q.Len()+1; i++ {
+	n := q.Len()
+	if n > pathCap {
+		n = pathCap
+	}
+	for i := -1; i < n+1; i++ {
 		ps = append(ps, hexs(q.Index(i)))
 	}
 	return " paths=" + strings.Join(ps, ",")
@@ -189,7 +197,11 @@ func showSeqOpt(q *fileseq.FileSequence) string {
 
 func showListed(q *fileseq.FileSequence) string {
 	var ps []string
-	for i := 0; i < q.Len(); i++ {
+	n := q.Len()
+	if n > pathCap {
+		n = pathCap
+	}
+	for i := 0; i < n; i++ {
 		ps = append(ps, hexs(q.Index(i)))
 	}
 	return fmt.Sprintf("%s:%d:%d:%s", hexs(q.String()), q.ZFill(), int(q.PaddingStyle()), strings.Join(ps, ","))
@@ -256,6 +268,25 @@ func populate(path string, readable bool, ents []string) (cleanup func()) {
 		}
 	}
 	return
+}
+
+// readdirOrder reports the entry names in the order Readdir(-1) returns them,
+// which is the order the library sees (the model is run on that order).
+func readdirOrder(dir string) string {
+	f, err := os.Open(dir)
+	if err != nil {
+		return "-"
+	}
+	defer f.Close()
+	infos, err := f.Readdir(-1)
+	if err != nil || len(infos) == 0 {
+		return "-"
+	}
+	var names []string
+	for _, fi := range infos {
+		names = append(names, hexs(fi.Name()))
+	}
+	return strings.Join(names, ",")
 }
 
 func applyOp(q *fileseq.FileSequence, op string) {
@@ -349,6 +380,44 @@ func dispatch(op string, a []string) string {
 		}
 		fmt.Fprintf(&b, " index=%s has=%s", zlist(idx), hs.String())
 		return b.String()
+	case "big":
+		var ms0, ms1 runtime.MemStats
+		runtime.GC()
+		runtime.ReadMemStats(&ms0)
+		t0 := time.Now()
+		fs, err := fileseq.NewFrameSet(a[0])
+		if err != nil {
+			return "ERR"
+		}
+		var b strings.Builder
+		fmt.Fprintf(&b, "OK len=%d start=%d end=%d", fs.Len(), fs.Start(), fs.End())
+		var vs []string
+		for _, i := range argzl(a[1]) {
+			v, err := fs.Frame(i)
+			if err != nil {
+				vs = append(vs, "E")
+			} else {
+				vs = append(vs, strconv.Itoa(v))
+			}
+		}
+		fmt.Fprintf(&b, " value=%s", strings.Join(vs, ","))
+		var idx []int
+		var hs strings.Builder
+		for _, v := range argzl(a[2]) {
+			idx = append(idx, fs.Index(v))
+			hs.WriteString(b01(fs.HasFrame(v)))
+		}
+		fmt.Fprintf(&b, " index=%s has=%s", zlist(idx), hs.String())
+		q, qerr := fileseq.NewFileSequence("/x/foo." + a[0] + "#.exr")
+		if qerr != nil {
+			b.WriteString(" qstr=ERR")
+		} else {
+			fmt.Fprintf(&b, " qstr=%s qlen=%d p0=%s plast=%s pout=%s", hexs(q.String()), q.Len(), hexs(q.Index(0)), hexs(q.Index(q.Len()-1)), hexs(q.Index(q.Len())))
+		}
+		el := time.Since(t0)
+		runtime.ReadMemStats(&ms1)
+		fmt.Fprintf(&b, " M_alloc=%d M_us=%d", ms1.TotalAlloc-ms0.TotalAlloc, el.Microseconds())
+		return b.String()
 	case "norm":
 		fs, err := fileseq.NewFrameSet(a[0])
 		if err != nil {
@@ -411,8 +480,9 @@ func dispatch(op string, a []string) string {
 	case "disk":
 		cleanup := populate(a[1], argz(a[2]) != 0, a[3:])
 		defer cleanup()
+		order := readdirOrder(a[1])
 		qs, err := fileseq.FindSequencesOnDisk(a[1], fileOpts(argzl(a[0]))...)
-		return showListing(qs, err)
+		return showListing(qs, err) + " M_order=" + order
 	case "findseq":
 		// opts style pattern readable ents...; the directory is the pattern's
 		pat := a[2]
@@ -422,14 +492,15 @@ func dispatch(op string, a []string) string {
 		}
 		cleanup := populate(dir, argz(a[3]) != 0, a[4:])
 		defer cleanup()
+		order := " M_order=" + readdirOrder(dir)
 		q, err := fileseq.FindSequenceOnDiskPad(pat, fileseq.PadStyle(argz(a[1])), fileOpts(argzl(a[0]))...)
 		if err != nil {
-			return "ERR"
+			return "ERR" + order
 		}
 		if q == nil {
-			return "OK nil"
+			return "OK nil" + order
 		}
-		return "OK " + showListed(q) + " base=" + hexs(q.Basename()) + " ext=" + hexs(q.Ext())
+		return "OK " + showListed(q) + " base=" + hexs(q.Basename()) + " ext=" + hexs(q.Ext()) + order
 	case "clean":
 		d, f := filepath.Split(a[0])
 		return fmt.Sprintf("OK clean=%s dir=%s file=%s", hexs(filepath.Clean(a[0])), hexs(d), hexs(f))
